@@ -31,7 +31,10 @@ TEXT = {
               'include_missing_err, include_inner_compile_err); disk takes precedence over the cache and the cache is the '
               "fallback (disk_over_cache, cache_fallback); what is inserted is exactly the render of the file's content with the "
               'current variables (include_equiv); with fuel n+1 every chain of depth <= n is rendered by the real handler '
-              '(incFuel_succ). Tie: the `incl` stream answers every case (disk-only layouts as `render` lines, layouts with '
+              '(incFuel_succ). Closed form (include_denotation, include_denotation_run, include_denotation_mk): when the argument '
+              'evaluates to a string, the joined path has a source on disk or (only if no such file exists) in the cache, the '
+              'source compiles and renders normally with a copy of the current variables to out, the include node is exactly '
+              'one write of out to the includer\'s writer and leaves the variables as they were. Tie: the `incl` stream answers every case (disk-only layouts as `render` lines, layouts with '
               'cached sources as `incl` lines) by the model and the real engine, plus model-independent oracles: reference '
               'include, inlined output, error table, precedence table.'),
     "design_ref": 'DESIGN.md 6 C14',
